@@ -31,3 +31,19 @@ Definition run_c07_case (c : N * string * N * list ival * list ival) : list Z :=
              end
          end
   end.
+
+(* ---- C06: the protocol machine on abstract events ------------------------------------------------ *)
+Require Import BV.model.EzspProto.
+
+Definition enc_kind (k : raise_kind) : Z :=
+  match k with KTimeout => 0 | KSendFailed => 1 | KInvalidCommand => 2 | KCancelled => 3 end%Z.
+Definition enc_pout (o : pout) : list Z :=
+  match o with
+  | OSend id s f => [1%Z; Z.of_N id; Z.of_N s; Z.of_N f]
+  | OReturn id vs => 2%Z :: Z.of_N id :: flat_map enc_ival vs
+  | ORaise id k => [3%Z; Z.of_N id; enc_kind k]
+  | OCallback f vs => 4%Z :: Z.of_N f :: flat_map enc_ival vs
+  end.
+Definition run_c06_case (es : list pevent) : list Z :=
+  let '(st, os) := proto_run p_init es in
+  flat_map (fun o => flat_map enc_pout o ++ [(-1)%Z]) os ++ [Z.of_N (p_seq st)].
